@@ -190,7 +190,7 @@ def run(c, prog, ctx):
     # ------------------------------------------------------------- R2 constructors
     WL = Fn(prog, TXO + "with_secrets_last")
     LAST = ("%s::last(arg2, arg3, arg8, std::iter::Iterator::collect(std::iter::Iterator::map(arg9, fnitem('blind::TxOutSecrets::value_blind_inputs',))), "
-            "std::iter::Iterator::collect(std::iter::Iterator::map(std::iter::Iterator::copied(arg10), fnitem('blind::TxOutSecrets::value_blind_inputs',))))" % VBF)
+            "std::iter::Iterator::collect(std::iter::Iterator::map(arg10, fnitem('blind::TxOutSecrets::value_blind_inputs',))))" % VBF)
     WTS = "blind::with_txout_secrets(arg1, arg2, arg4, arg5, arg7, blind::TxOutSecrets::new(arg6, arg8, arg3, %s), arg9)" % LAST
     r = rets(WL)
     c.inst("R2.with-secrets-last", "vbf = last(value, abf, inputs' triples, other outputs' triples); committed with and returned", r == ["std::result::Result::Ok{tuple{%s, %s}}" % (WTS, LAST)], "returns %s" % [x[:300] for x in r], WL.f.where(), WL.f.path)
